@@ -91,8 +91,8 @@ theorem spec_obj_roundtrip : ∀ (v : Obj) (rest : List Nat) (fuel : Nat),
   | .name n, rest, fuel, hs, hf => by
     obtain ⟨f, rfl⟩ : ∃ f, fuel = f + 1 := ⟨fuel - 1, by simp [need] at hf; omega⟩
     simp [SafeSpec] at hs
-    have := spec_readName_raw n rest hs.1 hs.2
-    show Syntax.readObj (f + 1) (47 :: n ++ rest) = _
+    have := spec_readName_escName n rest hs.1 hs.2
+    show Syntax.readObj (f + 1) (47 :: escapeName n ++ rest) = _
     rw [Syntax.readObj]
     simp [Syntax.skip, Syntax.isWhite, this, readBack]
   | .ref n g, rest, fuel, hs, hf => by
@@ -160,10 +160,10 @@ theorem spec_entries_roundtrip : ∀ (kvs : List (List Nat × Obj)) (rest : List
     have hfl : needKVs kvs ≤ f := by simp [needKVs] at hf; omega
     have ihv := spec_obj_roundtrip v (serEntries kvs ++ 10 :: 62 :: 62 :: rest) f hs.1.2 hfv
     have ihl := spec_entries_roundtrip kvs rest f hs.2 hfl
-    have hname := spec_readName_raw k (32 :: (serRaw v ++ (serEntries kvs ++ 10 :: 62 :: 62 :: rest)))
+    have hname := spec_readName_escName k (32 :: (serRaw v ++ (serEntries kvs ++ 10 :: 62 :: 62 :: rest)))
       hs.1.1 (by simp [specEnds, Syntax.isRegular, Syntax.isWhite])
     have e : serEntries ((k, v) :: kvs) ++ 10 :: 62 :: 62 :: rest
-        = 10 :: 47 :: (k ++ 32 :: (serRaw v ++ (serEntries kvs ++ 10 :: 62 :: 62 :: rest))) := by
+        = 10 :: 47 :: (escapeName k ++ 32 :: (serRaw v ++ (serEntries kvs ++ 10 :: 62 :: 62 :: rest))) := by
       simp [serEntries]
     rw [e, Syntax.readDict]
     simp [Syntax.skip, Syntax.isWhite, hname, readObj_skip_space, ihv, ihl, readBackKVs]
